@@ -151,6 +151,12 @@ fn expectations(marks: &[OpMark], initial: &Snap, boundary: usize) -> Expect {
         }
         if k < done && m.flush_type && m.completed && !is_dbwide(m.kind) {
             allowed.push(m.after.clone());
+            // a Region::flush syncs whole files: every region is now durable up to its length in
+            // this snapshot, so later writes below that length overwrite durable bytes in place
+            for (name, bytes) in &m.after.regions {
+                let l = flushed_len.entry(name.clone()).or_insert(0);
+                *l = (*l).max(bytes.len());
+            }
             if let Some(r) = &m.flushed_region {
                 governed.insert(r.clone(), allowed.len() - 1);
                 exempt.remove(r);
@@ -205,6 +211,12 @@ fn check_image(rec: &Recovered, exp: &Expect, mode: ImageMode) -> Result<(), (St
                 }
                 if ok {
                     break;
+                }
+            }
+            if !ok && std::env::var("VERIF_TRACE").is_ok() {
+                eprintln!("governed {name}: first_allowed {first_allowed} of {}; got {:?}", exp.allowed.len(), got.as_ref().map(|g| (g.len(), crate::common::hash_bytes(g))));
+                for (i, snap) in exp.allowed.iter().enumerate() {
+                    eprintln!("  allowed[{i}] = {:?}", snap.regions.get(name).map(|g| (g.len(), crate::common::hash_bytes(g))));
                 }
             }
             if !ok {
